@@ -112,12 +112,17 @@ theorem flushMem_readonly (s : State) (oi : Nat) (o : Obj) (force : Bool) (e : E
 cell), whichever object performs the flush and whatever that object's own memory holds. -/
 theorem flushMem_writes_buffered (s : State) (oi : Nat) (o : Obj) (force : Bool) (e : Entry)
     (hb : (!(s.isBuffered o) || force) = true) (he : s.entry o.res = some e)
-    (hm : e.modified = true) (hc : e.fmeta = s.stat o.res) :
+    (hm : e.modified = true) (hc : e.fmeta = s.stat o.res) (hw : s.failing.contains o.res = false) :
     (flushMem s oi o force).2 = none ∧
     (flushMem s oi o force).1.store o.res = some (s.cellData e.cell).toBase := by
+  have hts : trySave (s.setObj oi { o with cell := e.cell }) { o with cell := e.cell } =
+      (saveToResource (s.setObj oi { o with cell := e.cell }) { o with cell := e.cell }, none) := by
+    unfold trySave
+    have : (s.setObj oi { o with cell := e.cell }).failing = s.failing := rfl
+    simp only [this, hw, Bool.false_eq_true, if_false]
   unfold flushMem
   simp only [hb, he, hm, if_true]
-  simp only [hc, ne_eq, not_true_eq_false, if_false]
+  simp only [hc, ne_eq, not_true_eq_false, if_false, hts]
   refine ⟨trivial, ?_⟩
   split <;> simp [State.store, saveToResource, State.writeFile, State.setEntry, State.delEntry,
     State.root, State.setObj, State.cellData]
@@ -209,7 +214,7 @@ with the buffered contents themselves), and the entry leaves the buffer. -/
 theorem flushSer_writes (s : State) (oi : Nat) (o : Obj) (force : Bool) (e : Entry)
     (hb : (!(s.isBuffered o) || force) = true) (he : s.entry o.res = some e)
     (hm : Tr.same e.contents e.hash = false) (hc : e.fmeta = s.stat o.res)
-    (hmerge : (mergeInto s oi o e.contents).2 = none) :
+    (hmerge : (mergeInto s oi o e.contents).2 = none) (hw : s.failing.contains o.res = false) :
     (flushSer s oi o force).2 = none ∧
     (flushSer s oi o force).1.store o.res = some ((mergeInto s oi o e.contents).1.root o).toBase ∧
     (flushSer s oi o force).1.entry o.res = none := by
@@ -221,7 +226,13 @@ theorem flushSer_writes (s : State) (oi : Nat) (o : Obj) (force : Bool) (e : Ent
     rw [hmm] at hmerge
     simp only at hmerge
     subst hmerge
-    simp only [Bool.not_false, if_true]
+    have hf1 : s1.failing = s.failing := by
+      have : (mergeInto s oi o e.contents).1.failing = s.failing := by
+        unfold mergeInto State.addDetached State.own; simp only; split <;> rfl
+      rw [hmm] at this; exact this
+    have hts : trySave s1 o = (saveToResource s1 o, none) := by
+      unfold trySave; simp only [hf1, hw, Bool.false_eq_true, if_false]
+    simp only [Bool.not_false, if_true, hts]
     refine ⟨trivial, ?_, State.entry_delEntry _ _⟩
     simp [State.store, saveToResource, State.writeFile, State.delEntry]
 
@@ -283,5 +294,38 @@ theorem mergeInto_root (s : State) (oi : Nat) (o : Obj) (d : J) :
   have h2 : ∀ (x : State) (a : Nat) (ts : List T), (x.addDetached a ts).cellData o.cell = x.cellData o.cell :=
     fun _ _ _ => rfl
   rw [h2, h1, cellData_syncFrom, cellData_setCell]
+
+
+/-- a write that fails with `OSError` changes no file; the caller gets the error -/
+theorem trySave_fails (s : State) (o : Obj) (hw : s.failing.contains o.res = true) :
+    trySave s o = (s, some (.other "OSError")) := by
+  unfold trySave; rw [if_pos hw]
+
+/-- serialized strategy, a flush whose write fails (disk full): `OSError` is raised, NO file
+changes (content, metadata), and the file leaves the buffer all the same (the `finally` clause) -/
+theorem flushSer_write_fails (s : State) (oi : Nat) (o : Obj) (force : Bool) (e : Entry)
+    (hb : (!(s.isBuffered o) || force) = true) (he : s.entry o.res = some e)
+    (hm : Tr.same e.contents e.hash = false) (hc : e.fmeta = s.stat o.res)
+    (hmerge : (mergeInto s oi o e.contents).2 = none) (hw : s.failing.contains o.res = true) :
+    (flushSer s oi o force).2 = some (.other "OSError") ∧
+    (flushSer s oi o force).1.stores = s.stores ∧ (flushSer s oi o force).1.metas = s.metas ∧
+    (flushSer s oi o force).1.entry o.res = none := by
+  unfold flushSer
+  simp only [hb, he, hm, if_true]
+  simp only [hc, ne_eq, not_true_eq_false, if_false]
+  cases hmm : mergeInto s oi o e.contents with
+  | mk s1 err =>
+    rw [hmm] at hmerge
+    simp only at hmerge
+    subst hmerge
+    have hcore := core_eq (mergeInto_core s oi o e.contents)
+    rw [hmm] at hcore
+    have hf1 : s1.failing = s.failing := by
+      have : (mergeInto s oi o e.contents).1.failing = s.failing := by
+        unfold mergeInto State.addDetached State.own; simp only; split <;> rfl
+      rw [hmm] at this; exact this
+    have hts : trySave s1 o = (s1, some (.other "OSError")) := trySave_fails s1 o (by rw [hf1]; exact hw)
+    simp only [Bool.not_false, if_true, hts]
+    exact ⟨trivial, hcore.1, hcore.2.1, State.entry_delEntry _ _⟩
 
 end SC.B
